@@ -25,11 +25,17 @@ KNOWN = os.path.join(ROOT, "known_findings.json")
 
 
 def load_known(pid):
-    if not os.path.exists(KNOWN):
-        return [], []
-    data = json.load(open(KNOWN))
-    opens = [e for e in data.get("findings", []) if e["property"] == pid and e["status"] == "open"]
-    fixed = [e for e in data.get("findings", []) if e["property"] == pid and e["status"] == "fixed"]
+    """known_findings.json plus known_findings.d/*.json (read-only for the checks)."""
+    entries = []
+    paths = [KNOWN] if os.path.exists(KNOWN) else []
+    kd = os.path.join(ROOT, "known_findings.d")
+    if os.path.isdir(kd):
+        paths += [os.path.join(kd, f) for f in sorted(os.listdir(kd)) if f.endswith(".json")]
+    for p in paths:
+        data = json.load(open(p))
+        entries += data.get("findings", []) if isinstance(data, dict) else data
+    opens = [e for e in entries if e["property"] == pid and e["status"] == "open"]
+    fixed = [e for e in entries if e["property"] == pid and e["status"] == "fixed"]
     return opens, fixed
 
 
